@@ -511,12 +511,18 @@ func (s *shape[T]) NewBuffer(kind string, opts ...parquet.RowGroupOption) Buffer
 // ---- readers ----
 
 type typedReader[T any] struct {
-	sh *shape[T]
-	r  *parquet.GenericReader[T]
+	sh  *shape[T]
+	r   *parquet.GenericReader[T]
+	buf []T // reused across calls like an application's batch slice: slots keep the previous batch's values
 }
 
 func (t *typedReader[T]) Read(n int) ([]any, []parquet.Row, error) {
-	buf := make([]T, n)
+	if cap(t.buf) < n {
+		nb := make([]T, n)
+		copy(nb, t.buf[:cap(t.buf)])
+		t.buf = nb
+	}
+	buf := t.buf[:n]
 	m, err := t.r.Read(buf)
 	vals := make([]any, m)
 	rows := make([]parquet.Row, m)
